@@ -4,6 +4,7 @@ package asmh7
 import (
 	"github.com/alttpo/snes/asm"
 
+	"verif/harness/asmh"
 	"verif/harness/cpuenv"
 	"verif/vp"
 )
@@ -33,10 +34,10 @@ func New(cpu int) *H {
 // Exec: pre = tracked flags before the call (captured by the generated code).
 func (h *H) Exec(pre asm.Flags, flagIdx int, flagVal uint8, zeroC bool) {
 	m, x := uint8(0), uint8(0)
-	if pre&asm.Accumulator8bit != 0 {
+	if pre&asmh.FlagM != 0 {
 		m = 1
 	}
-	if pre&asm.IndexRegister8bit != 0 {
+	if pre&asmh.FlagX != 0 {
 		x = 1
 	}
 	// the CPU's width flags are symbolic in general; here they are tied to the tracker (the invariant)
@@ -83,10 +84,10 @@ func (h *H) Exec(pre asm.Flags, flagIdx int, flagVal uint8, zeroC bool) {
 	vp.Assume(!panicked)
 	post := h.E.Flags()
 	tm, tx := uint8(0), uint8(0)
-	if post&asm.Accumulator8bit != 0 {
+	if post&asmh.FlagM != 0 {
 		tm = 1
 	}
-	if post&asm.IndexRegister8bit != 0 {
+	if post&asmh.FlagX != 0 {
 		tx = 1
 	}
 	vp.Assert("cpu-next-fetch-is-at-the-emitters-pc", gotPC == h.E.PC())
